@@ -105,6 +105,11 @@ _INPUTS = ("; harness/py2v_inputs.py (census of string-keyed lookups and the "
            "judged by model/Inputs.v)")
 for _id in ("C02", "C12", "C20"):
     TRANSLATORS[_id] = TRANSLATORS[_id] + _INPUTS
+for _id in ("C02", "C11", "C20"):
+    TRANSLATORS[_id] = TRANSLATORS[_id] + '; harness/py2v_reqfacts.py + coq/lib/PyReqFacts.v (Request.authorization, SimpleRequest.__init__ debug flag, method, method_number, path -> gen/ReqFactsGen.v)'
+TRANSLATORS["C05"] += ("; harness/py2v_classes.py + coq/lib/PyClasses.v "
+                       "(constructors of the response classes -> "
+                       "gen/ClassesGen.v)")
 TRANSLATORS["C05"] += ("; harness/py2v_hdrwrites.py (census of the places "
                        "that name a response header -> "
                        "gen/HeaderWritesGen.v, judged by "
